@@ -123,7 +123,15 @@ func runC15(c *Ctx) {
 	if vec == nil || ved == nil || ecV == nil || edV == nil {
 		c.Unresolved("C15.G1", "verifyECSignature / verifyEd25519Signature / ecdsa.Verify / ed25519.Verify")
 	} else {
-		ks := "jwsutil.parseEllipticCurve($0.Crv).keySize"
+		// the curve's table row: what parseEllipticCurve(jwk.Crv) hands back (a pointer, or a value with an ok flag)
+		pec := c.Fn("jwsutil", "parseEllipticCurve")
+		row := "jwsutil.parseEllipticCurve($0.Crv)"
+		for _, cl := range callsTo(vec, pec) {
+			if c.Path(cl.Call.Args[0], nil) == "$0.Crv" && cl.Call.Signature().Results().Len() > 1 {
+				row += "#0"
+			}
+		}
+		ks := row + ".keySize"
 		slices := 0
 		chk := cmpReject("len(signature) != 2*keySize rejected", token.NEQ, pathIs("len($1)"), pathIs("(2 * "+ks+")"))
 		ok, w, _ := c.Guard(vec, nil, chk, func(in ssa.Instruction) bool {
@@ -148,13 +156,15 @@ func runC15(c *Ctx) {
 		}
 		sort.Strings(rs)
 		c.Check("C15.G1", "verifyECSignature:r||s-split", eqStrs(rs, []string{"$1[:" + ks + "]", "$1[" + ks + ":]"}), vec.Pos(), fmt.Sprintf("signature split %v", rs))
-		c.CheckGuard("C15.G1", "verifyECSignature:unsupported-curve-rejected", vec, nil, cmpReject("curve == nil rejected", token.EQL, pathIs("jwsutil.parseEllipticCurve($0.Crv)"), pathIs("nil")))
+		c.CheckGuard("C15.G1", "verifyECSignature:unsupported-curve-rejected", vec, nil, anyOf("unknown curve rejected",
+			cmpReject("curve == nil rejected", token.EQL, pathIs("jwsutil.parseEllipticCurve($0.Crv)"), pathIs("nil")),
+			callTo("parseEllipticCurve(jwk.Crv) ok", pec, pathIs("$0.Crv"))))
 		c.CheckGuard("C15.G1", "verifyECSignature:Verify-result-tested", vec, nil, callTo("ecdsa.Verify == true", ecV))
 		c.CheckGuard("C15.G1", "verifyEd25519Signature:Verify-result-tested", ved, nil, callTo("ed25519.Verify == true", edV))
 		// hash of msg with the row's hash
 		okH := false
 		for _, cl := range callsTo(vec, ecV) {
-			if strings.Contains(c.Path(cl.Call.Args[1], nil), "jwsutil.parseEllipticCurve($0.Crv).hash") {
+			if strings.Contains(c.Path(cl.Call.Args[1], nil), row+".hash") {
 				okH = true
 			}
 		}
@@ -602,12 +612,44 @@ func runC16(c *Ctx) {
 	c.Assume("go-jose encodes NIST and Ed25519 keys at full width; btcec.S256 parameters")
 }
 
+// hashOf: a table entry names its hash as the crypto.Hash constant or as the hasher made from it.
+func hashOf(p string) string {
+	if strings.HasPrefix(p, "(crypto.Hash).New(") && strings.HasSuffix(p, ")") {
+		return p[len("(crypto.Hash).New(") : len(p)-1]
+	}
+	return p
+}
+
 // signerVerifierTables: the ECDSA signer's curve→hash table and the verifier's name→(curve,width,hash)
 // table agree row by row; widths are ⌈bits/8⌉; the signer pads to ⌈BitSize/8⌉ of the key's curve.
 func (c *Ctx) signerVerifierTables(rule string) bool {
-	getHasher := c.Fn("util/ecsigner", "getHasher")
 	pec := c.Fn("jwsutil", "parseEllipticCurve")
 	sign := c.Method("util/ecsigner", "Signer", "Sign")
+	// the signer's curve -> hash function: the ecsigner function that Sign calls with the key's curve and that hands
+	// back the hash (a crypto.Hash, or the hash.Hash made from it)
+	var getHasher *ssa.Function
+	if sign != nil {
+		forEachInstr(sign, func(in ssa.Instruction) {
+			cl, ok := in.(*ssa.Call)
+			if !ok {
+				return
+			}
+			g := cl.Call.StaticCallee()
+			if g == nil || pkgPathOf(g) != modPkg+"util/ecsigner" || g.Blocks == nil || g.Signature.Results().Len() != 1 {
+				return
+			}
+			switch types.TypeString(g.Signature.Results().At(0).Type(), nil) {
+			case "crypto.Hash", "hash.Hash":
+			default:
+				return
+			}
+			for _, a := range cl.Call.Args {
+				if strings.HasSuffix(c.Path(a, nil), ".Curve") {
+					getHasher = g
+				}
+			}
+		})
+	}
 	if getHasher == nil || pec == nil || sign == nil {
 		c.Unresolved(rule, "ecsigner.getHasher / jwsutil.parseEllipticCurve / (*ecsigner.Signer).Sign")
 		return false
@@ -622,7 +664,7 @@ func (c *Ctx) signerVerifierTables(rule string) bool {
 		}
 		for _, e := range boolEdges(bo, true) {
 			if r, isR := e.to.Instrs[len(e.to.Instrs)-1].(*ssa.Return); isR {
-				signer[c.Path(bo.Y, nil)] = c.Path(r.Results[0], nil)
+				signer[c.Path(bo.Y, nil)] = hashOf(c.Path(r.Results[0], nil))
 			}
 		}
 	})
@@ -641,12 +683,12 @@ func (c *Ctx) signerVerifierTables(rule string) bool {
 		for b := range reach(getHasher.Blocks[0], cut) {
 			if r, isR := b.Instrs[len(b.Instrs)-1].(*ssa.Return); isR {
 				n++
-				signerDefault = c.Path(r.Results[0], nil)
+				signerDefault = hashOf(c.Path(r.Results[0], nil))
 			}
 		}
 		if _, isReachedEntry := reach(getHasher.Blocks[0], cut)[getHasher.Blocks[0]]; isReachedEntry {
 			if r, isR := getHasher.Blocks[0].Instrs[len(getHasher.Blocks[0].Instrs)-1].(*ssa.Return); isR && n == 0 {
-				signerDefault = c.Path(r.Results[0], nil)
+				signerDefault = hashOf(c.Path(r.Results[0], nil))
 				n = 1
 			}
 		}
@@ -819,7 +861,7 @@ func (c *Ctx) signerVerifierTables(rule string) bool {
 			g := cl.Call.StaticCallee()
 			return g != nil && g.String() == "crypto/ecdsa.Sign"
 		}) {
-			if strings.Contains(c.Path(cl.Call.Args[2], nil), "getHasher($0.privateKey.PublicKey.Curve)") {
+			if strings.Contains(c.Path(cl.Call.Args[2], nil), getHasher.Name()+"($0.privateKey.PublicKey.Curve)") {
 				okH = true
 			}
 		}
